@@ -185,7 +185,7 @@ public:
 };
 
 // ---- capture of "optimization case used" debug lines -------------------------------------------
-static std::vector<std::string> g_optlines;
+static thread_local std::vector<std::string> g_optlines;
 class CaptureSink : public spdlog::sinks::base_sink<spdlog::details::null_mutex> {
 protected:
   void sink_it_(const spdlog::details::log_msg &msg) override {
@@ -195,6 +195,35 @@ protected:
   void flush_() override {}
 };
 
+// ---- forced schedules at the yield points of getConnectionsForScenario (C14) ---------------------
+#include <mutex>
+#include <condition_variable>
+#include <thread>
+static std::mutex g_sm;
+static std::condition_variable g_scv;
+static std::vector<int> g_sched;
+static size_t g_spos = 0;
+static std::vector<char> g_tdone;
+static thread_local int t_idx = -1;
+static std::vector<std::string> g_trace;
+static void schedAdvance() { while (g_spos < g_sched.size() && (g_sched[g_spos] < 0 || g_sched[g_spos] >= (int)g_tdone.size() || g_tdone[g_sched[g_spos]])) g_spos++; }
+extern "C" void trrouting_verif_point(const char *point) {
+  if (t_idx < 0) return;
+  std::unique_lock<std::mutex> lk(g_sm);
+  schedAdvance();
+  g_scv.wait(lk, [] { schedAdvance(); return g_spos >= g_sched.size() || g_sched[g_spos] == t_idx; });
+  if (g_spos < g_sched.size()) g_spos++;
+  g_trace.push_back(std::to_string(t_idx) + ":" + point);
+  schedAdvance();
+  g_scv.notify_all();
+}
+static void schedThreadDone() {
+  std::unique_lock<std::mutex> lk(g_sm);
+  g_tdone[t_idx] = 1;
+  schedAdvance();
+  g_scv.notify_all();
+}
+
 // ---- tokens -------------------------------------------------------------------------------------
 static std::vector<std::string> toks;
 static size_t tp = 0;
@@ -203,8 +232,8 @@ static int nextInt() { return atoi(nextTok().c_str()); }
 static std::vector<int> countedInts() { int n = nextInt(); std::vector<int> v; for (int i = 0; i < n; i++) v.push_back(nextInt()); return v; }
 static std::vector<Row> countedRows() { int n = nextInt(); std::vector<Row> v; for (int i = 0; i < n; i++) { Row r; r.node = nextInt(); r.time = nextInt(); r.dist = nextInt(); v.push_back(r); } return v; }
 
-static std::ostringstream out;
-static const char *g_kind = "route";
+static thread_local std::ostringstream out;
+static thread_local const char *g_kind = "route";
 static sigjmp_buf g_jmp;
 static volatile sig_atomic_t g_jmp_armed = 0;
 
@@ -272,6 +301,80 @@ static void printExn(const char *kind, const std::exception &e) {
 struct Q { int scen, time, minw, maxtt, maxacc, maxegr, maxtr, maxfw, fwd; };
 static Q readQ() { Q q; q.scen = nextInt(); q.time = nextInt(); q.minw = nextInt(); q.maxtt = nextInt(); q.maxacc = nextInt(); q.maxegr = nextInt(); q.maxtr = nextInt(); q.maxfw = nextInt(); q.fwd = nextInt(); return q; }
 
+static bool readDataset(Dataset &ds) {
+  ds = Dataset();
+  for (;;) {
+    std::string t = nextTok();
+    if (t == "nodes") ds.nodes = countedInts();
+    else if (t == "fp") { int n = nextInt(); ds.fp.push_back({n, countedRows()}); }
+    else if (t == "rfp") { int n = nextInt(); ds.rfp.push_back({n, countedRows()}); }
+    else if (t == "line") { LineD l; l.id = nextInt(); l.agency = nextInt(); l.mode = nextInt(); ds.lines.push_back(l); }
+    else if (t == "path") { PathD p; p.id = nextInt(); p.line = nextInt(); p.nodes = countedInts(); p.dists = countedInts(); ds.paths.push_back(p); }
+    else if (t == "trip") { TripD tr; tr.id = nextInt(); tr.path = nextInt(); tr.service = nextInt(); int n = nextInt(); for (int i = 0; i < n; i++) { StopTime s; s.arr = nextInt(); s.dep = nextInt(); s.cb = nextInt(); s.cu = nextInt(); tr.times.push_back(s); } ds.trips.push_back(tr); }
+    else if (t == "scen") { ScenD s; s.id = nextInt(); for (int k = 0; k < 9; k++) s.l[k] = countedInts(); ds.scens.push_back(s); }
+    else if (t == "end") break;
+    else { fprintf(stderr, "dataset: unexpected token %s\n", t.c_str()); return false; }
+  }
+  return true;
+}
+
+static std::string doRoute(TransitData &td, const Q &q, int alt, const std::vector<Row> &acc, const std::vector<Row> &egr) {
+  TableGeoFilter geo;
+  geo.acc = acc; geo.egr = egr;
+  g_kind = alt ? "alt" : "route";
+  g_optlines.clear();
+  out.str(""); out.clear();
+  auto sit = td.getScenarios().find(uuidOf(K_SCEN, q.scen));
+  if (sit == td.getScenarios().end()) return "route noscenario";
+  try {
+    Calculator calc(td, geo);
+    RouteParameters params(std::make_unique<Point>(1.0, 1.0), std::make_unique<Point>(2.0, 2.0), sit->second, q.time, q.minw, q.maxtt, q.maxacc, q.maxegr, q.maxtr, q.maxfw, alt == 1, q.fwd == 1);
+    if (alt) {
+      AlternativesResult res = calc.alternativesRouting(params);
+      out << "alt ok " << res.totalAlternativesCalculated << " " << res.alternatives.size();
+      for (auto &r : res.alternatives) { out << " || "; printRoute(*r); }
+    } else {
+      std::unique_ptr<SingleCalculationResult> res = calc.calculateSingle(params);
+      printRoute(*res);
+      printOpt();
+    }
+  } catch (NoRoutingFoundException &e) {
+    out.str(""); out.clear();
+    out << g_kind << " noroute " << (int)e.getReason();
+  } catch (std::exception &e) {
+    out.str(""); out.clear();
+    printExn(g_kind, e);
+  }
+  std::string r = out.str();
+  out.str(""); out.clear();
+  return r;
+}
+
+static std::string doAccess(TransitData &td, const Q &q, const std::vector<Row> &rows) {
+  TableGeoFilter geo;
+  geo.acc = rows; geo.egr = rows;
+  g_kind = "access";
+  out.str(""); out.clear();
+  auto sit = td.getScenarios().find(uuidOf(K_SCEN, q.scen));
+  if (sit == td.getScenarios().end()) return "access noscenario";
+  try {
+    Calculator calc(td, geo);
+    AccessibilityParameters params(std::make_unique<Point>(q.fwd ? 1.0 : 2.0, 1.0), sit->second, q.time, q.minw, q.maxtt, q.maxacc, q.maxegr, q.maxtr, q.maxfw, q.fwd == 1);
+    std::unique_ptr<AllNodesResult> res = calc.calculateAllNodes(params);
+    out << "access ok " << res->nodes.size() << " " << res->totalNodeCount;
+    for (auto &n : res->nodes) out << " | " << idOfUuid(n.node.uuid) << " " << n.arrivalTime << " " << n.totalTravelTime << " " << n.numberOfTransfers;
+  } catch (NoRoutingFoundException &e) {
+    out.str(""); out.clear();
+    out << "access noroute " << (int)e.getReason();
+  } catch (std::exception &e) {
+    out.str(""); out.clear();
+    printExn("access", e);
+  }
+  std::string r = out.str();
+  out.str(""); out.clear();
+  return r;
+}
+
 int main(int argc, char **argv) {
   if (argc < 2) { fprintf(stderr, "usage: l2 casefile\n"); return 2; }
   {
@@ -294,77 +397,78 @@ int main(int argc, char **argv) {
 
   if (nextTok() != "dataset") { fprintf(stderr, "expected dataset\n"); return 2; }
   Dataset ds;
-  for (;;) {
-    std::string t = nextTok();
-    if (t == "nodes") ds.nodes = countedInts();
-    else if (t == "fp") { int n = nextInt(); ds.fp.push_back({n, countedRows()}); }
-    else if (t == "rfp") { int n = nextInt(); ds.rfp.push_back({n, countedRows()}); }
-    else if (t == "line") { LineD l; l.id = nextInt(); l.agency = nextInt(); l.mode = nextInt(); ds.lines.push_back(l); }
-    else if (t == "path") { PathD p; p.id = nextInt(); p.line = nextInt(); p.nodes = countedInts(); p.dists = countedInts(); ds.paths.push_back(p); }
-    else if (t == "trip") { TripD tr; tr.id = nextInt(); tr.path = nextInt(); tr.service = nextInt(); int n = nextInt(); for (int i = 0; i < n; i++) { StopTime s; s.arr = nextInt(); s.dep = nextInt(); s.cb = nextInt(); s.cu = nextInt(); tr.times.push_back(s); } ds.trips.push_back(tr); }
-    else if (t == "scen") { ScenD s; s.id = nextInt(); for (int k = 0; k < 9; k++) s.l[k] = countedInts(); ds.scens.push_back(s); }
-    else if (t == "end") break;
-    else { fprintf(stderr, "dataset: unexpected token %s\n", t.c_str()); return 2; }
-  }
+  if (!readDataset(ds)) return 2;
   TableDataFetcher fetcher(ds);
   bool cacheAll = getenv("L2_CACHE_ALL") != nullptr;
   TransitData td(fetcher, cacheAll);
-  TableGeoFilter geo;
+  TableGeoFilter geo;   // used by the optimize op only
 
   while (tp < toks.size()) {
     std::string op = nextTok();
     if (op == "route") {
       Q q = readQ();
       int alt = nextInt();
-      geo.acc = countedRows();
-      geo.egr = countedRows();
-      g_kind = alt ? "alt" : "route";
-      g_optlines.clear();
-      auto sit = td.getScenarios().find(uuidOf(K_SCEN, q.scen));
-      if (sit == td.getScenarios().end()) { out << "route noscenario"; flushLine(); continue; }
+      std::vector<Row> acc = countedRows();
+      std::vector<Row> egr = countedRows();
       alarm(20);
-      try {
-        Calculator calc(td, geo);
-        RouteParameters params(std::make_unique<Point>(1.0, 1.0), std::make_unique<Point>(2.0, 2.0), sit->second, q.time, q.minw, q.maxtt, q.maxacc, q.maxegr, q.maxtr, q.maxfw, alt == 1, q.fwd == 1);
-        if (alt) {
-          AlternativesResult res = calc.alternativesRouting(params);
-          out << "alt ok " << res.totalAlternativesCalculated << " " << res.alternatives.size();
-          for (auto &r : res.alternatives) { out << " || "; printRoute(*r); }
-        } else {
-          std::unique_ptr<SingleCalculationResult> res = calc.calculateSingle(params);
-          printRoute(*res);
-          printOpt();
-        }
-      } catch (NoRoutingFoundException &e) {
-        out.str(""); out.clear();
-        out << g_kind << " noroute " << (int)e.getReason();
-      } catch (std::exception &e) {
-        out.str(""); out.clear();
-        printExn(g_kind, e);
-      }
+      std::string line = doRoute(td, q, alt, acc, egr);
       alarm(0);
+      out << line;
       flushLine();
     } else if (op == "access") {
       Q q = readQ();
-      geo.acc = countedRows();
-      geo.egr = geo.acc;
-      g_kind = "access";
-      auto sit = td.getScenarios().find(uuidOf(K_SCEN, q.scen));
-      if (sit == td.getScenarios().end()) { out << "access noscenario"; flushLine(); continue; }
+      std::vector<Row> rows = countedRows();
+      alarm(20);
+      std::string line = doAccess(td, q, rows);
+      alarm(0);
+      out << line;
+      flushLine();
+    } else if (op == "parallel") {
+      // parallel N S s1..sS : the next N route/access operations run concurrently, one thread each; at every
+      // yield point of getConnectionsForScenario a thread waits until the schedule names it
+      int n = nextInt();
+      int sl = nextInt();
+      g_sched.clear(); g_spos = 0; g_trace.clear();
+      for (int i = 0; i < sl; i++) g_sched.push_back(nextInt());
+      struct POp { bool access; Q q; int alt; std::vector<Row> a, e; };
+      std::vector<POp> pops;
+      for (int i = 0; i < n; i++) {
+        std::string k = nextTok();
+        POp po; po.access = (k == "access"); po.q = readQ(); po.alt = 0;
+        if (po.access) { po.a = countedRows(); } else { po.alt = nextInt(); po.a = countedRows(); po.e = countedRows(); }
+        pops.push_back(po);
+      }
+      g_tdone.assign(n, 0);
+      std::vector<std::string> results(n);
+      std::vector<std::thread> threads;
+      alarm(60);
+      for (int i = 0; i < n; i++) {
+        threads.emplace_back([&, i]() {
+          t_idx = i;
+          results[i] = pops[i].access ? doAccess(td, pops[i].q, pops[i].a) : doRoute(td, pops[i].q, pops[i].alt, pops[i].a, pops[i].e);
+          schedThreadDone();
+        });
+      }
+      for (auto &t : threads) t.join();
+      alarm(0);
+      out << "parallel";
+      for (auto &tr : g_trace) out << " " << tr;
+      flushLine();
+      for (int i = 0; i < n; i++) { out << results[i]; flushLine(); }
+    } else if (op == "refresh") {
+      // refresh <kind> dataset ... end : the files now encode the new dataset; kind 0 = all caches (the
+      // /updateCache handler's order), 1 = schedules, 2 = scenarios then schedules
+      int kind = nextInt();
+      if (nextTok() != "dataset") { fprintf(stderr, "refresh: expected dataset\n"); return 2; }
+      if (!readDataset(ds)) return 2;
+      g_kind = "refresh";
       alarm(20);
       try {
-        Calculator calc(td, geo);
-        AccessibilityParameters params(std::make_unique<Point>(q.fwd ? 1.0 : 2.0, 1.0), sit->second, q.time, q.minw, q.maxtt, q.maxacc, q.maxegr, q.maxtr, q.maxfw, q.fwd == 1);
-        std::unique_ptr<AllNodesResult> res = calc.calculateAllNodes(params);
-        out << "access ok " << res->nodes.size() << " " << res->totalNodeCount;
-        for (auto &n : res->nodes) out << " | " << idOfUuid(n.node.uuid) << " " << n.arrivalTime << " " << n.totalTravelTime << " " << n.numberOfTransfers;
-      } catch (NoRoutingFoundException &e) {
-        out.str(""); out.clear();
-        out << "access noroute " << (int)e.getReason();
-      } catch (std::exception &e) {
-        out.str(""); out.clear();
-        printExn("access", e);
-      }
+        if (kind == 0) { td.updateDataSources(); td.updatePersons(); td.updateOdTrips(); td.updateAgencies(); td.updateServices(); td.updateNodes(); td.updateLines(); td.updatePaths(); td.updateScenarios(); td.updateSchedules(); }
+        else if (kind == 1) { td.updateSchedules(); }
+        else { td.updateScenarios(); td.updateSchedules(); }
+        out << "refresh ok " << (int)td.getDataStatus();
+      } catch (std::exception &e) { printExn("refresh", e); }
       alarm(0);
       flushLine();
     } else if (op == "index") {
